@@ -363,6 +363,30 @@ def trace_amen(res, rng, tier):
                            "impl_outcome": "shape %s" % (list(exp.shape),), "model_outcome": "%s ; max deviation %.3g" % (mo[:200], worst),
                            "note": "a quantity stored by the running AMEn product loop differs (beyond a positive scalar) from the Lean kernel / fold on the operands of the run"}, no_input=True)
     res.extra["amen_mm_loop_state_evaluations"] = len(lines)
+    # the block after the local update (truncation + enrichment + QR + absorption into the next core): TTModel/AmenStep.lean, TT.C12d
+    from looptie import update_loop_tie
+    runs = []
+    for c in range(4 if tier == "quick" else 24):
+        d = [3, 2, 4, 3][c % 4]
+        M = [rng.randint(1, 3) for _ in range(d)]
+        N = [rng.randint(2, 3) for _ in range(d)]
+        K = [1] * d if c % 2 == 0 else [rng.randint(1, 2) for _ in range(d)]
+        RA = [1] + [rng.randint(1, 3) for _ in range(d - 1)] + [1]
+        RB = [1] + [rng.randint(2, 3) for _ in range(d - 1)] + [1]
+        seed = rng.randrange(1 << 30)
+
+        def thunk(c=c, d=d, M=M, N=N, K=K, RA=RA, RB=RB, seed=seed, eps_t=[1e-8, 1e-1][(c // 2) % 2]):
+            tn.manual_seed(seed)
+            A = torchtt.TT(rnd_cores(rng, [[RA[k], M[k], N[k], RA[k + 1]] for k in range(d)], tn.float64, False))
+            if c % 2 == 0:
+                x = torchtt.TT(rnd_cores(rng, [[RB[k], N[k], RB[k + 1]] for k in range(d)], tn.float64, False))
+                torchtt.amen_mv(A, x, eps=eps_t, nswp=3, kickrank=2, use_cpp=False)
+            else:
+                B = torchtt.TT(rnd_cores(rng, [[RB[k], N[k], K[k], RB[k + 1]] for k in range(d)], tn.float64, False))
+                torchtt.amen_mm(A, B, eps=eps_t, nswp=3, kickrank=2)
+        runs.append(("amen_%s/d%d" % ("mv" if c % 2 == 0 else "mm", d), thunk))
+    pats = {"vt": "v = v.t()", "qr": "r_add = uk.shape", "set": "x_cores[k] = tn.reshape(u,"}
+    res.extra["amen_mm_update_tie"] = update_loop_tie(res, "C11", rng, AM._amen_mm_python, pats, runs, res_rule=False)
 
 
 def run(res, rng, tier, known):
